@@ -278,6 +278,7 @@ def run(repo: Repo, L: Ledger, tier: str):
 
         lo, hi = origin(lo), origin(hi)
         walks = {}
+        recognised_walks = []
         for w in walk_shallow(find.node):
             if isinstance(w, ast.While) and pos(w) < pos(slices[0]):
                 t = norm(w.test).replace(" ", "")
@@ -286,6 +287,7 @@ def run(repo: Repo, L: Ledger, tier: str):
                         moves = [x for x in walk_shallow(w) if isinstance(x, ast.AugAssign) and is_name(x.target, var)]
                         if len(moves) == 1 and isinstance(moves[0].op, ast.Add if d == 1 else ast.Sub) and try_fold(moves[0].value, default=None) == 1:
                             walks[var] = True
+                            recognised_walks.append(w)
         ok4 = walks.get(lo) and walks.get(hi)
         why4 = f"no inward Gap-stripping walk for index {[v for v in (lo, hi) if not walks.get(v)]}: a returned result could start or end with a gap row"
     if not ok4:
@@ -295,9 +297,20 @@ def run(repo: Repo, L: Ledger, tier: str):
         missing = [v for v in (lo, hi) if v and not walks.get(v)] if len(slices) == 1 and isinstance(slices[0].slice.lower, ast.Name) else []
         mention = lambda c, v: any(isinstance(x, ast.Name) and x.id == v for x in ast.walk(c))  # noqa: E731
         # Gap tests that are not the test of a recognised inward walk: stripping done some other way (next(<generator>), helper ...)
-        walk_tests = {id(c) for w in walk_shallow(find.node) if isinstance(w, ast.While) for c in ast.walk(w.test)}
+        walk_tests = {id(c) for w in (recognised_walks if len(slices) == 1 and isinstance(slices[0].slice.lower, ast.Name) else []) for c in ast.walk(w.test)}
         other_gap_tests = [c for c in gap_tests if id(c) not in walk_tests]
         unclear = "not found" in why4 or not missing or bool(other_gap_tests) or any(mention(c, v) for v in missing for c in [*gap_tests, *helper_calls])
+        # the refutation "nothing strips gaps" presumes an index with one entry per row: an index built from the non-gap rows
+        # only (or of another layout) makes every index position a contig already
+        add_ = ia.methods.get("add_scaffold")
+        if add_ is None:
+            raise AnalysisError("anchor IndexedAssembly.add_scaffold vanished")
+        apps = [c for c in walk_shallow(add_.node) if isinstance(c, ast.Call) and isinstance(c.func, ast.Attribute) and c.func.attr == "append" and isinstance(c.func.value, ast.Name)]
+        from ..util import ancestors as _anc
+
+        plain_index = len(apps) == 1 and len(apps[0].args) == 1 and isinstance(apps[0].args[0], ast.Name) and not any(isinstance(a_, ast.If) for a_ in _anc(apps[0]) if a_ is not add_.node and not isinstance(a_, ast.FunctionDef))
+        if not plain_index:
+            unclear = True
         if unclear:
             raise AnalysisError(f"{find.short}: terminal-gap stripping is not written as two inward while-walks over the slice indices ({why4}): form not understood")
     L.check(bool(ok4), "R4", find.short, "leading and trailing gap rows are walked off before slicing", why4, find.loc())
